@@ -1,6 +1,7 @@
 package main
 
 import (
+	"crypto/tls"
 	"fmt"
 	"io"
 	"net"
@@ -11,6 +12,7 @@ import (
 	"github.com/cybergarage/go-redis/redis"
 	"verif/double"
 	"verif/gen"
+	"verif/pki"
 	"verif/refstore"
 	"verif/resp"
 	"verif/rng"
@@ -42,10 +44,24 @@ func raceCanary() {
 	wg.Wait()
 }
 
-func c14commands(r *rng.R, tag string, n int) []resp.Value {
+func c14commands(r *rng.R, tag string, n int, realParams bool) []resp.Value {
 	var out []resp.Value
 	k := func() string { return fmt.Sprintf("%s:k%d", tag, r.Intn(3)) }
 	for i := 0; i < n; i++ {
+		if realParams && r.Chance(1, 8) {
+			// the parameters the framework itself reads while serving: written at run time by a client
+			switch r.Intn(4) {
+			case 0:
+				out = append(out, resp.Cmd("CONFIG", "SET", "requirepass", fmt.Sprintf("%s-%s-%d", c08pass, tag, r.Intn(1000))))
+			case 1:
+				out = append(out, resp.Cmd("CONFIG", "GET", "requirepass"))
+			case 2:
+				out = append(out, resp.Cmd("CONFIG", "GET", "*"))
+			default:
+				out = append(out, resp.Cmd("CONFIG", "SET", "requirepass", c08pass))
+			}
+			continue
+		}
 		switch r.Intn(16) {
 		case 0:
 			out = append(out, resp.Cmd("SET", k(), "v"))
@@ -94,9 +110,27 @@ func c14run(idx int) run.Result {
 	if idx%3 == 2 {
 		srv.SetRequirePass(c08pass)
 	}
+	// every second round also serves a TLS port (connections arriving there are checked against the
+	// authenticators by the connection loop itself); every sixth round lets clients rewrite requirepass
+	tlsPort := 0
+	var tlsCfg *tls.Config
+	if idx%2 == 1 {
+		if p := c15pki(); p != nil {
+			tlsPort = freePort()
+			srv.SetTLSPort(tlsPort)
+			srv.SetTLSCertFile(p.CertFile)
+			srv.SetTLSKeyFile(p.KeyFile)
+			srv.SetTLSCaCertFile(p.CAFile)
+			tlsCfg = p.ClientConfig(pki.CredRight)
+		}
+	}
+	realParams := idx%6 == 5
 	port := 0
 	for attempt := 0; attempt < 10; attempt++ {
 		port = freePort()
+		if port == tlsPort {
+			continue
+		}
 		srv.SetPort(port)
 		if err := srv.Start(); err == nil {
 			break
@@ -108,12 +142,12 @@ func c14run(idx int) run.Result {
 		return res
 	}
 	nClients := 2 + r.Intn(31)
-	lifecycle := r.Chance(1, 2)
-	password := idx%3 == 2 // a third of the rounds require a password: AUTH runs the authenticators concurrently
-	res.Classes = []string{fmt.Sprintf("lifecycle=%v", lifecycle), fmt.Sprintf("password=%v", password)}
+	lifecycle := r.Chance(1, 2) || idx%6 == 5 // rounds whose clients rewrite requirepass always restart: Start re-registers the password
+	password := idx%3 == 2                    // a third of the rounds require a password: AUTH runs the authenticators concurrently
+	res.Classes = []string{fmt.Sprintf("lifecycle=%v", lifecycle), fmt.Sprintf("password=%v", password), fmt.Sprintf("tls-port=%v", tlsPort != 0), fmt.Sprintf("clients-rewrite-requirepass=%v", realParams)}
 	res.Key = gen.Hash64([]byte(fmt.Sprint(idx, nClients, lifecycle)))
 	res.NonTrivial = true
-	var exchanges, dials, dialErrs int64
+	var exchanges, dials, dialErrs, tlsDials int64
 	stop := make(chan struct{})
 	var wg sync.WaitGroup
 	// TCP clients with churn and all endings
@@ -129,7 +163,12 @@ func c14run(idx int) run.Result {
 					return
 				default:
 				}
-				conn, err := net.DialTimeout("tcp", fmt.Sprintf("127.0.0.1:%d", port), 2*time.Second)
+				overTLS := tlsPort != 0 && (c+round)%3 == 0
+				dport := port
+				if overTLS {
+					dport = tlsPort
+				}
+				conn, err := net.DialTimeout("tcp", fmt.Sprintf("127.0.0.1:%d", dport), 2*time.Second)
 				atomic.AddInt64(&dials, 1)
 				if err != nil {
 					atomic.AddInt64(&dialErrs, 1)
@@ -138,8 +177,13 @@ func c14run(idx int) run.Result {
 				}
 				tc := conn.(*net.TCPConn)
 				tc.SetDeadline(time.Now().Add(5 * time.Second))
-				cl := &tcpClient{c: tc}
-				cmds := c14commands(cr, tag, 1+cr.Intn(8))
+				var wire net.Conn = tc
+				if overTLS {
+					atomic.AddInt64(&tlsDials, 1)
+					wire = tls.Client(tc, tlsCfg)
+				}
+				cl := &tcpClient{c: wire}
+				cmds := c14commands(cr, tag, 1+cr.Intn(8), realParams)
 				if password {
 					// some clients authenticate (rightly or wrongly) first, some never do
 					switch cr.Intn(4) {
@@ -151,7 +195,7 @@ func c14run(idx int) run.Result {
 					}
 				}
 				for _, req := range cmds {
-					if _, err := tc.Write(resp.Encode(req)); err != nil {
+					if _, err := wire.Write(resp.Encode(req)); err != nil {
 						break
 					}
 					if _, err := cl.read(); err != nil {
@@ -173,10 +217,10 @@ func c14run(idx int) run.Result {
 					tc.Close()
 				case 2:
 					s := resp.Encode(resp.Cmd("SET", tag+":cut", "value"))
-					tc.Write(s[:cr.Intn(len(s))])
-					tc.Close()
+					wire.Write(s[:cr.Intn(len(s))])
+					wire.Close()
 				default:
-					tc.Close()
+					wire.Close()
 				}
 			}
 		}(c)
@@ -188,7 +232,7 @@ func c14run(idx int) run.Result {
 			defer wg.Done()
 			hr := rng.New(c14.seed, rng.Str("C14h"), uint64(idx), uint64(h))
 			for round := 0; round < 4; round++ {
-				reqs := c14commands(hr, fmt.Sprintf("h%d", h), 2+hr.Intn(6))
+				reqs := c14commands(hr, fmt.Sprintf("h%d", h), 2+hr.Intn(6), realParams)
 				stream, ends := encodeReqs(reqs)
 				c := sconn.New(sconn.Script{Chunks: chunkAt(stream, ends), End: sconn.EOF})
 				double.Serve(srv, c, serveWait)
@@ -222,7 +266,11 @@ func c14run(idx int) run.Result {
 		go func() {
 			defer wg.Done()
 			lr := rng.New(c14.seed, rng.Str("C14l"), uint64(idx))
-			for i := 0; i < 3; i++ {
+			calls := 3
+			if realParams {
+				calls = 8
+			}
+			for i := 0; i < calls; i++ {
 				time.Sleep(time.Duration(1+lr.Intn(4)) * time.Millisecond)
 				var err error
 				if lr.Bool() {
@@ -256,6 +304,7 @@ func c14run(idx int) run.Result {
 	res.Count("tcp_exchanges", exchanges)
 	res.Count("tcp_dials", dials)
 	res.Count("tcp_dial_errors", dialErrs)
+	res.Count("tls_dials", tlsDials)
 	res.Count("handler_primitive_calls", st.Calls)
 	res.Count("clients", int64(nClients))
 	res.Count("lifecycle_errors", int64(len(lcErrs)))
@@ -271,7 +320,7 @@ func init() {
 	run.Register(&run.Prop{
 		ID: "C14", Level: "exploration",
 		Rule: func(tier string) string {
-			return "case = one workload round executed in a child built with the Go race detector (GORACE halt_on_error=0; the parent parses every 'WARNING: DATA RACE' block from the child's stderr and does not trust exit codes): a server with a mutex-guarded reference store as handler on a real loopback listener; 2..32 TCP clients with connection churn, every command family, CONFIG SET/GET on shared and private keys, SELECT, AUTH with right and wrong passwords (a third of the rounds require a password), and endings by close, RST, half-close and mid-request cut; two goroutines serving scripted connections through hook H1; a control goroutine enumerating Conns()/ConnByUUID and reading configuration; in half of the rounds a goroutine calling Restart or Stop+Start three times while clients are active. Oracle: a report counts iff the innermost non-runtime frame of either access stack is in github.com/cybergarage/go-redis/redis[/...]; reports are reduced to an unordered pair of access functions (line numbers stripped, closures normalised) and de-duplicated; a child dying with 'fatal error: concurrent map ...' is a violation. Self-check: a planted harness-side race must be reported in every run (detector active). distinct = round index (every round is a different seeded workload and schedule)"
+			return "case = one workload round executed in a child built with the Go race detector (GORACE halt_on_error=0; the parent parses every 'WARNING: DATA RACE' block from the child's stderr and does not trust exit codes): a server with a mutex-guarded reference store as handler on a real loopback listener (every second round also a TLS listener, a third of the connections going through it); 2..32 TCP clients with connection churn, every command family, CONFIG SET/GET on shared and private keys (and, in every sixth round, CONFIG SET/GET of requirepass and CONFIG GET * from the clients), SELECT, AUTH with right and wrong passwords (a third of the rounds require a password), and endings by close, RST, half-close and mid-request cut; two goroutines serving scripted connections through hook H1; a control goroutine enumerating Conns()/ConnByUUID and reading configuration; in half of the rounds a goroutine calling Restart or Stop+Start three times while clients are active. Oracle: a report counts iff the innermost non-runtime frame of either access stack is in github.com/cybergarage/go-redis/redis[/...]; reports are reduced to an unordered pair of access functions (line numbers stripped, closures normalised) and de-duplicated; a child dying with 'fatal error: concurrent map ...' is a violation. Self-check: a planted harness-side race must be reported in every run (detector active). distinct = round index (every round is a different seeded workload and schedule)"
 		},
 		Assumptions: []string{"the race detector only reports races on accesses that executed and were unordered in that run: a clean run is not race freedom"},
 		Setup: func(tier string, seed uint64) int {
